@@ -186,6 +186,20 @@ def run(chk):
                 srcs = [unparse(rd.value_of(d)) for d in rd.reaching(rt if e is v else rd.def_stmt(rd.reaching(rt, v.id)[0]), a.id)] if isinstance(a, ast.Name) else [unparse(a)]
                 idx_src = srcs
                 ok = bool(srcs) and all(s == f"{data_param}.df.index" for s in srcs)
+                if not ok and isinstance(a, ast.Name):
+                    # `<name>.index` where <name> is, at that point, the frame the data object handed out (`df_eval = eval_data.df`)
+                    at = rt if e is v else rd.def_stmt(rd.reaching(rt, v.id)[0])
+                    ok2 = True
+                    for d in rd.reaching(at, a.id):
+                        val = rd.value_of(d)
+                        if not (isinstance(val, ast.Attribute) and val.attr == "index" and isinstance(val.value, ast.Name)):
+                            ok2 = False
+                            break
+                        inner = [unparse(rd.value_of(d2)) for d2 in rd.reaching(rd.def_stmt(d), val.value.id)]
+                        if not inner or any(x != f"{data_param}.df" for x in inner):
+                            ok2 = False
+                            break
+                    ok = ok2 and bool(rd.reaching(at, a.id))
         all_defs_reindex = True
         if isinstance(v, ast.Name):
             all_defs_reindex = all(isinstance(rd.value_of(d), ast.Call) and isinstance(rd.value_of(d).func, ast.Attribute) and rd.value_of(d).func.attr == "reindex" for d in rd.reaching(rt, v.id))
